@@ -591,6 +591,56 @@ func nonNilErrD(v ssa.Value, at ssa.Instruction, d int) bool {
 			}
 		}
 	}
+	// a load of a local error cell (named result spilled because of a defer): another load of the same cell was found
+	// non-nil on a dominating edge and the cell is not written in between
+	if ld, ok := v.(*ssa.UnOp); ok && ld.Op == token.MUL {
+		if al, isAl := ld.X.(*ssa.Alloc); isAl && ld.Block() != nil {
+			for _, r := range *al.Referrers() {
+				ld2, isLd := r.(*ssa.UnOp)
+				if !isLd || ld2 == ld || ld2.Op != token.MUL {
+					continue
+				}
+				for _, e := range nilTestEdges(ld2, false) {
+					if len(e.to.Preds) != 1 || !e.to.Dominates(ld.Block()) {
+						continue
+					}
+					clean := true
+					for _, r2 := range *al.Referrers() {
+						st, isS := r2.(*ssa.Store)
+						if !isS || st.Addr != ssa.Value(al) {
+							continue
+						}
+						sb := st.Block()
+						if sb == ld.Block() {
+							// only stores before the load matter
+							before := false
+							for _, in := range sb.Instrs {
+								if in == ssa.Instruction(st) {
+									before = true
+									break
+								}
+								if in == ssa.Instruction(ld) {
+									break
+								}
+							}
+							if before && e.to.Dominates(sb) {
+								clean = false
+							}
+							continue
+						}
+						if e.to.Dominates(sb) {
+							if _, reaches := reach(sb, nil)[ld.Block()]; reaches {
+								clean = false
+							}
+						}
+					}
+					if clean {
+						return true
+					}
+				}
+			}
+		}
+	}
 	return false
 }
 
@@ -601,8 +651,12 @@ func maySucceed(ret *ssa.Return) bool {
 	if n == 0 {
 		return true
 	}
-	last := ret.Results[n-1]
+	last := returnedValue(ret, n-1) // looks through `*err = e; rundefers; return *err`
 	if isErrType(last.Type()) {
+		// the landing pad after a recovered panic returns what the deferred function stored: an error
+		if f := ret.Parent(); f != nil && f.Recover != nil && ret.Block() == f.Recover && recoverSetsError(f) {
+			return false
+		}
 		return !nonNilErr(last, ret)
 	}
 	if n == 1 && isBoolType(last.Type()) {
@@ -1097,7 +1151,7 @@ func (c *Ctx) inlinedResult(cl *ssa.Call, idx int, env Env, d int) (string, bool
 		return "", false
 	}
 	genv := c.calleeEnv(&cl.Call, g, env)
-	return c.path(srs[0].Results[idx], genv, d+2), true
+	return c.path(returnedValue(srs[0], idx), genv, d+2), true
 }
 
 // InlPath renders v with unexported single-exit helpers inlined.
@@ -1288,4 +1342,31 @@ func (c *Ctx) varargValues(v ssa.Value) ([]ssa.Value, bool) {
 		}
 	}
 	return out, true
+}
+
+// returnedValue: result idx of the return, looking through the spill of named results that a deferred call forces
+// (`*result = v; rundefers; return *result`): the value last stored into the result cell in the return's own block.
+func returnedValue(r *ssa.Return, idx int) ssa.Value {
+	v := r.Results[idx]
+	ld, ok := v.(*ssa.UnOp)
+	if !ok || ld.Op != token.MUL {
+		return v
+	}
+	al, ok := ld.X.(*ssa.Alloc)
+	if !ok {
+		return v
+	}
+	var last ssa.Value
+	for _, in := range r.Block().Instrs {
+		if in == ssa.Instruction(ld) {
+			break
+		}
+		if st, isS := in.(*ssa.Store); isS && st.Addr == ssa.Value(al) {
+			last = st.Val
+		}
+	}
+	if last != nil {
+		return last
+	}
+	return v
 }
